@@ -55,6 +55,14 @@ def main(run):
             continue
         v = run.viol[key]
         cfg = (v["info"].get("job") or {}).get("cfg")
+        if key.startswith("assert:") or (key.startswith("signal:") and cfg not in (None, "rel64")):
+            # the reference configuration (NDEBUG) computed a result for this case, this configuration aborted instead:
+            # a configuration-specific deviation (C07 reports the same abort from its own runs)
+            del run.viol[key]
+            v["what"] = "a configuration aborts (%s) on a case the reference configuration computes: %s" % (cfg, v.get("what", ""))
+            v["key"] = "config-diff:abort:" + key
+            run.viol[v["key"]] = v
+            continue
         if key.startswith(SAN):
             tallied[key] = v["count"]
             del run.viol[key]
@@ -70,5 +78,5 @@ def main(run):
              "descriptions; the comparison is on per-case digests of return codes and output octets" % scale,
         assumptions=["big-endian, B_PER_W = 16 and NEON builds cannot be produced/run on this x86-64 image",
                      "the 32-bit word configuration is obtained with the guarded hook BEE2_VERIF_W32 on the 64-bit ABI",
-                     "a case on which an assertion-enabled configuration aborts is C07's matter; the remaining configurations are still compared",
+                     "a case on which an assertion-enabled configuration aborts while the reference configuration computes a result is a deviation of that configuration (also reported by C07); sanitizer reports of the asan64 configuration are C07's matter",
                      "value-level violations of a unit's own oracle are reported by that unit's property, here only digests decide"])
